@@ -13,7 +13,12 @@ verify, verify_batch, map_indexes, normalize_indexes) and `crypto/src/merkle/pro
   ordered insert), `BTreeSet<usize>` is a strictly ascending list (`sinsert`).
 * `get_root` and `into_openings` contain the same two loops (the second one additionally records
   the partial tree); the model has the loops once (`grFirst`, `grLevel`) with the partial-tree
-  writes collected in a log that `getRoot` ignores.
+  writes collected in a log that `getRoot` ignores.  `proof_pointers` is indexed, as in the Rust
+  code, by the POSITION `i` of the node in the current level's index list (`grSibling pn ptrs i`).
+* Fix af69a4d: `get_root` rejects (`InvalidProof`) unless `indexes.len() == leaves.len()`, right
+  after the emptiness check (as `into_openings` always did).
+* Fix f1ad895: after the level loops `get_root` (only) rejects the proof unless every pointer
+  equals the length of its node vector (`unusedNodes`).
 Core Lean only.
 -/
 import Wf.Model.Serde
@@ -393,17 +398,28 @@ def grRun (merge : D → D → D) (p : BatchProof D) (indexes : List Nat) (leave
       | .abort => .abort
       | .ok r => grLevels merge p.nodes (p.depth - 1) r.2 r.1
 
-/-- `BatchMerkleProof::get_root` -/
+/-- `proof_pointers.iter().zip(self.nodes.iter()).any(|(&pointer, nodes)| pointer != nodes.len())`
+    (fix f1ad895): some supplied node vector has not been consumed exactly.  `zip` stops at the
+    shorter of the two lists, as the Rust iterator does. -/
+def unusedNodes (ptrs : List Nat) (pn : List (List D)) : Bool :=
+  (ptrs.zip pn).any fun x => x.1 != x.2.length
+
+/-- `BatchMerkleProof::get_root`.  The leaf-count check (fix af69a4d: exactly one leaf per index)
+    sits right after the emptiness check and BEFORE `map_indexes`, so it wins over the
+    out-of-range / duplicate errors.  The consumption check (fix f1ad895) sits AFTER the level
+    loops and BEFORE `v.remove(&1)`; `into_openings` has no such check (it shares only `grRun`). -/
 def BatchProof.getRoot (merge : D → D → D) (p : BatchProof D) (indexes : List Nat)
     (leaves : List D) : Res D :=
   if indexes.isEmpty then .err .tooFewIdx
+  else if indexes.length ≠ leaves.length then .err .invalid
   else match grRun merge p indexes leaves with
     | .err e => .err e
     | .abort => .abort
     | .ok st =>
-      match AMap.get st.v 1 with
-      | some r => .ok r
-      | none => .err .invalid
+      if unusedNodes st.ptrs p.nodes then .err .invalid
+      else match AMap.get st.v 1 with
+        | some r => .ok r
+        | none => .err .invalid
 
 /-- `MerkleTree::verify_batch` -/
 def verifyBatch [DecidableEq D] (merge : D → D → D) (root : D) (indexes : List Nat)
